@@ -267,6 +267,23 @@ def noseed(prog, rep):
                             hits.append((q, c.lineno, f"generator built from the literal seed {[show(a) for a in args]}"))
                     elif name in LEGACY:
                         hits.append((q, c.lineno, f"legacy global-state call numpy.random.{name}"))
+    # a generator created in a DEFAULT ARGUMENT is created once, when the function is defined: every call without the argument continues one
+    # shared stream, so the second computation of the same thing differs from the first (and nothing the caller passes controls it)
+    shared = []
+    for q, fn in sorted(prog.functions.items()):
+        a_ = getattr(fn.node, "args", None)
+        if a_ is None:
+            continue
+        for dflt in list(a_.defaults) + [d_ for d_ in a_.kw_defaults if d_ is not None]:
+            for c in ast.walk(dflt):
+                if isinstance(c, ast.Call):
+                    txt = ast.unparse(c.func)
+                    if txt.split(".")[-1] in ("default_rng", "RandomState", "Generator", "SeedSequence", "PCG64", "MT19937"):
+                        shared.append((q, dflt.lineno, ast.unparse(c)[:60]))
+    for q, ln, what in shared:
+        rep.fail("C07.noseed", f"{q}:shared-default", f"{prog.functions[q].file}:{ln}",
+                 f"the default argument {what} is evaluated once at definition time: all calls share one generator, the same computation repeated in one process gives "
+                 "different numbers (two IFORM contours of the same 3-variable model differ)")
     allowed = 0
     for q, ln, what in hits:
         fnq = q
@@ -276,6 +293,6 @@ def noseed(prog, rep):
         else:
             rep.fail("C07.noseed", f"{fnq}:seed", f"{prog.functions[q].file}:{ln}",
                      f"{what}: sampling on this path is not controlled by the caller's random_state / all 'random' results repeat")
-    if allowed == 0:
+    if allowed == 0 and not shared:
         rep.error("C07.noseed positive control (NSphere literal seed) not matched: the seed detector is blind")
     rep.ok("C07.noseed", "package", "virocon/*.py", f"{n_calls} call sites scanned, {len(hits) - allowed} unseeded/fixed-seed uses outside the allow-list")
